@@ -28,7 +28,7 @@ NATIVES = {k: v[0] for k, v in gates.SIGS.items()}
 
 def _rules():
     R = {}
-    leaves = [("sub", None), ("sub", 2), ("sub", "n"), ("pm", None), ("msub", None), ("gsub", None)]
+    leaves = [("sub", None), ("sub", 2), ("sub", "n"), ("pm", None), ("msub", None), ("gsub", None), ("mlsub", None)]
     for in_loop in (False, True):
         top = ("top", in_loop)
         sq = ("seq", in_loop)
@@ -45,6 +45,14 @@ TOP = ("top", False)
 HEADER = (("let", "n", 2), ("register", "q", 2))
 MACROS = (
     A.macro("ms", ("p",), A.seq(A.sub(None, A.gate("X", "p")))),
+    # a subcircuit inside a loop inside a sequential block inside a macro, reached through another macro
+    A.macro("ml", ("p", "c"), A.seq(A.gate("prepare_all"), A.gate("measure_all"), A.loop("c", A.seq(A.sub("c", A.gate("X", "p"), A.gate("H", "p")))))),
+    A.macro("mo", ("p",), A.seq(A.gate("ml", "p", 2))),
+)
+TWIN_MACROS = (
+    A.macro("ms", ("p",), A.seq(A.gate("prepare_all"), A.gate("X", "p"), A.gate("measure_all"))),
+    A.macro("ml", ("p", "c"), A.seq(A.gate("prepare_all"), A.gate("measure_all"), A.loop("c", A.seq(A.gate("prepare_all"), A.gate("X", "p"), A.gate("H", "p"), A.gate("measure_all"))))),
+    A.macro("mo", ("p",), A.seq(A.gate("ml", "p", 2))),
 )
 
 
@@ -80,6 +88,10 @@ def to_program(forest, twin=False):
                 i = counter[0] % 2
                 counter[0] += 1
                 return [A.gate("ms", A.item("q", i))]
+            if kind == "mlsub":
+                i = counter[0] % 2
+                counter[0] += 1
+                return [A.gate("mo", A.item("q", i))]
         if k == "seq":
             return [A.seq(*[s for c in t[2] for s in conv(c)])]
         if k == "loop":
@@ -87,11 +99,11 @@ def to_program(forest, twin=False):
         raise ValueError(t)
 
     body = tuple(s for t in forest for s in conv(t))
-    macros = MACROS
-    if twin:
-        macros = (A.macro("ms", ("p",), A.seq(A.gate("prepare_all"), A.gate("X", "p"), A.gate("measure_all"))),)
-    uses_macro = any(n[0] == "gate" and n[1] == "ms" for s in body for n in A.walk(s))
-    return A.prog(HEADER, (macros if uses_macro else ()) + body)
+    macros = TWIN_MACROS if twin else MACROS
+    used = {n[1] for s in body for n in A.walk(s) if n[0] == "gate"}
+    if "mo" in used:
+        used.add("ml")
+    return A.prog(HEADER, tuple(m for m in macros if m[1] in used) + body)
 
 
 def has_sub_block(block):
@@ -171,7 +183,7 @@ class C09(Check):
     def all_cases(self, tier):
         for n in range(1, self.bounds(tier)["max_nodes"] + 1):
             for f in GRAMMAR.iter_forests(n, TOP):
-                if any(t[0] == "leaf" and t[1][0] in ("sub", "msub", "gsub") for tr in f for t in _walk(tr)):
+                if any(t[0] == "leaf" and t[1][0] in ("sub", "msub", "gsub", "mlsub") for tr in f for t in _walk(tr)):
                     yield f
 
     def show(self, case):
